@@ -2,12 +2,14 @@ package props
 
 import (
 	"fmt"
+	"strings"
 
 	"github.com/consensys/gnark-crypto/ecc"
 	"github.com/consensys/gnark/frontend"
 	"github.com/consensys/gnark/frontend/cs/r1cs"
 	"github.com/consensys/gnark/frontend/cs/scs"
 	"github.com/consensys/gnark/test"
+	"github.com/wormhole-foundation/example-near-light-client/verifier"
 
 	"verifharness/engine"
 	"verifharness/fw"
@@ -117,6 +119,11 @@ func init() {
 					cs = append(cs, fw.Case{ID: "compiled/scs/A_testdata/k=1/fixed", Kind: "compiled", P: map[string]any{"inst": "A_testdata", "k": 1, "wrapper": "fixed", "sys": "scs"}})
 				}
 				cs = append(cs, fw.Case{ID: "gnark-control/A_testdata/k=1", Kind: "gnarkcontrol", P: map[string]any{"inst": "A_testdata", "k": 1}})
+				// one VerifierChip verifying several proofs in one circuit (state kept by any chip must not leak)
+				for _, f := range []string{"native", "commit"} {
+					cs = append(cs, fw.Case{ID: "sequence/A_testdata+A_testjson+A_testdata/k=1/" + f, Kind: "sequence", P: map[string]any{"inst": "A_testdata", "k": 1, "face": f, "others": "A_testjson,A_testdata"}})
+					cs = append(cs, fw.Case{ID: "sequence/B_random_CGZ+B_epoch_CbAH/k=2/" + f, Kind: "sequence", P: map[string]any{"inst": "B_random_CGZ", "k": 2, "face": f, "others": "B_epoch_CbAH"}})
+				}
 				cs = append(cs, fw.Case{ID: "shadowfit/A_testdata/k=1/native", Kind: "shadowfit", P: map[string]any{"inst": "A_testdata", "k": 1, "face": "native"}})
 				if !ctx.Quick {
 					cs = append(cs, fw.Case{ID: "shadowfit/B_random_CGZ/k=2/native", Kind: "shadowfit", P: map[string]any{"inst": "B_random_CGZ", "k": 2, "face": "native"}})
@@ -166,6 +173,28 @@ func init() {
 					}
 					o.Inc("gnark_engine_agreements")
 					o.Sample = map[string]any{"gnark": "accept", "engine": "ACCEPT"}
+				case "sequence":
+					list := []*inst.Instance{in}
+					for _, n := range strings.Split(c.Str("others"), ",") {
+						list = append(list, getInst(n).Restrict(c.Int("k")))
+					}
+					res := harnRunOpt(engine.Options{Face: faceByName(c.Str("face"))}, func(api frontend.API) error {
+						vc := verifier.NewVerifierChip(api, in.Common)
+						for _, i := range list {
+							cl := i.Clone()
+							vc.Verify(cl.PWI.Proof, cl.PWI.PublicInputs, cl.VD)
+						}
+						return nil
+					})
+					o.Events += events(res)
+					if io, bad := inconclusiveIf(res); bad {
+						return io
+					}
+					if res.Verdict != engine.Accept {
+						return fw.Violate("rejects_valid_proof_sequence:"+c.Str("face"), fmt.Sprintf("case %s: %d valid proofs verified by one VerifierChip: %s %s", c.ID, len(list), resStr(res), res.Msg))
+					}
+					o.Inc("proof_sequences_accepted_" + c.Str("face"))
+					o.Sample = map[string]any{"proofs_on_one_chip": len(list), "face": c.Str("face")}
 				case "compiled":
 					var nb frontend.NewBuilder = r1cs.NewBuilder
 					if c.Str("sys") == "scs" {
